@@ -432,7 +432,7 @@ def run_sizing(spec):
                             warnings.simplefilter("ignore")
                             a, b = g3.simulate(method=method)
                         side.append(max(a - (tg + 14.0), (tg - 9.0) - b))
-                    mech = "root-on-a-jump-of-the-sizing-objective" if (side[1] < 0 < side[0] and abs(e) <= 2e-2) else f"sized-height-not-a-root:{name}"
+                    mech = "root-on-a-jump-of-the-sizing-objective" if (side[1] < 0 < side[0] and side[1] - 1e-9 <= e <= side[0] + 1e-9) else f"sized-height-not-a-root:{name}"
                     out.append({"mechanism": mech, "message": f"size({name}) returned H={H:.4f} m in ({hmin},{hmax}) but the {name} excess there is {e:.4g} K (1 mm below {side[0]:.3g}, above {side[1]:.3g})", "case": case})
             else:
                 stats["sizing_on_bound"] += 1
@@ -475,7 +475,7 @@ def judge_real(rec, rep):
         rep.count("interior_roots")
         rep.worst("worst_abs_excess_at_interior_root_K", abs(rs["excess"]))
         lo_, hi_ = rs.get("excess_1mm_below"), rs.get("excess_1mm_above")
-        jump = lo_ is not None and hi_ is not None and hi_ < 0 < lo_ and abs(rs["excess"]) <= 2e-2
+        jump = lo_ is not None and hi_ is not None and hi_ < 0 < lo_ and hi_ - 1e-9 <= rs["excess"] <= lo_ + 1e-9
         if abs(rs["excess"]) > 1e-3 and jump:
             rep.violate("root-on-a-jump-of-the-sizing-objective", f"{meth}: excess {rs['excess']:.3g} K at H={f['H']:.5f} m, {lo_:.3g} K 1 mm below and {hi_:.3g} K 1 mm above", wit)
         elif abs(rs["excess"]) > 1e-3:
